@@ -346,6 +346,15 @@ func GroupByIWithContext[T any, K comparable](iteratee func(ctx context.Context,
 				})
 			}
 
+			// The map is shared with the teardown, which may run on another goroutine: it is
+			// emptied through its own (synchronized) methods, never re-assigned.
+			clearGroups := func() {
+				groups.Range(func(key, _ any) bool {
+					groups.Delete(key)
+					return true
+				})
+			}
+
 			sub := source.SubscribeWithContext(
 				subscriberCtx,
 				NewObserverWithContext(
@@ -367,13 +376,13 @@ func GroupByIWithContext[T any, K comparable](iteratee func(ctx context.Context,
 						destination.ErrorWithContext(ctx, err)
 						notifyAll(func(o Observer[T]) { o.ErrorWithContext(ctx, err) })
 
-						groups = sync.Map{}
+						clearGroups()
 					},
 					func(ctx context.Context) {
 						destination.CompleteWithContext(ctx)
 						notifyAll(func(o Observer[T]) { o.CompleteWithContext(ctx) })
 
-						groups = sync.Map{}
+						clearGroups()
 					},
 				),
 			)
@@ -382,7 +391,7 @@ func GroupByIWithContext[T any, K comparable](iteratee func(ctx context.Context,
 				sub.Unsubscribe()
 				notifyAll(func(o Observer[T]) { o.CompleteWithContext(subscriberCtx) })
 
-				groups = sync.Map{}
+				clearGroups()
 			}
 		})
 	}
